@@ -160,6 +160,22 @@ Proof.
     + constructor; simpl; auto; try congruence.
       all: try discriminate.
       all: try solve [intros _; destruct (v_open0 eq_refl); auto].
+  - (* inject: resolve *)
+    destruct (b_barrier s && negb (b_written s)) eqn:C; [|discriminate].
+    apply andb_true_iff in C as [C1 C2]. apply negb_true_iff in C2.
+    inversion H; subst; clear H. exists m. split.
+    + simpl. rewrite v_se0, (v_barrier0 C1), Nat.eqb_refl, (ES C2). reflexivity.
+    + constructor; auto.
+  - (* inject: visit *)
+    destruct (b_barrier s && negb (b_written s)) eqn:C; [|discriminate].
+    apply andb_true_iff in C as [C1 C2]. apply negb_true_iff in C2.
+    destruct (memn id (b_visited s)) eqn:V; inversion H; subst; clear H; exists m; split; auto.
+    + constructor; auto.
+    + assert (NV : ~ In id (b_visited s)) by (intros X; apply memn_In in X; congruence).
+      constructor; simpl; auto; try congruence.
+      all: try solve [constructor; auto; intros X; apply NV; apply v_vis0; auto].
+      all: try solve [intros x [E|Hx]; [subst; intros X; apply NV; apply v_vis0; auto | auto]].
+      all: try solve [intros x [[E|Hx]|Hx]; auto].
 Qed.
 
 (* every trace of the build model is accepted by the checker *)
